@@ -1193,16 +1193,24 @@ fn sub_c16_builder(input: &[u8], st: &mut Stats) -> R {
         .iter()
         .filter(|m| matches!(m.kind, MKind::BlockInst | MKind::BlockInsert | MKind::Terminator | MKind::TerminatorInsert))
         .collect();
-    let Some(mm) = ms.get(i).copied() else { return Ok(()) };
+    let variant = i % 6;
+    let Some(mm) = ms.get(i / 6).copied() else { return Ok(()) };
+    let has_ip = mm.mi.params.first().map(|p| p.1) == Some("InsertPoint");
+    if !has_ip && variant != 0 {
+        return Ok(());
+    }
     let stream = crate::sweep::stream_for(i as u64 ^ 0xc16, 256);
     let mut cs = Cs::new(&stream);
     let mut b = Builder::new();
     let ids: Vec<u32> = (0..6).map(|_| b.id()).collect();
     b.begin_function(ids[0], None, spirv::FunctionControl::NONE, ids[1]).map_err(|e| Fail::new("harness", "begin_function", format!("{:?}", e)))?;
     b.begin_block(None).map_err(|e| Fail::new("harness", "begin_block", format!("{:?}", e)))?;
+    // two instructions already in the block so that every insert point is meaningful
+    let _ = b.nop();
+    let _ = b.nop();
     let env = Env {
         ids,
-        block_len: Some(0),
+        block_len: Some(2),
         conforming: true,
         ..Default::default()
     };
@@ -1212,6 +1220,15 @@ fn sub_c16_builder(input: &[u8], st: &mut Stats) -> R {
         return Ok(());
     };
     let callf = mm.mi.call.unwrap();
+    let mut planned = planned;
+    if has_ip {
+        let ip = [IP::Begin, IP::End, IP::FromBegin(2), IP::FromEnd(0), IP::FromBegin(1), IP::FromEnd(1)][variant];
+        for a in planned.args.iter_mut() {
+            if let ArgVal::InsertPoint(x) = a {
+                *x = ip;
+            }
+        }
+    }
     let mut a = Args::new(planned.args.clone());
     let out = no_panic(&format!("Builder::{}", mm.mi.name), || callf(&mut b, &mut a))?;
     let opname = mm.gi.unwrap().opname.as_str();
@@ -1234,7 +1251,7 @@ fn sub_c16_builder(input: &[u8], st: &mut Stats) -> R {
             ),
         ));
     }
-    st.nontrivial(hash_str(mm.mi.name));
+    st.nontrivial(hash_str(&format!("{}#{}", mm.mi.name, variant)));
     if closed {
         st.set_insert("block_ending_methods", mm.mi.name);
     }
@@ -1248,7 +1265,7 @@ pub fn c16_run(ctx: &Ctx) {
         .iter()
         .filter(|m| matches!(m.kind, MKind::BlockInst | MKind::BlockInsert | MKind::Terminator | MKind::TerminatorInsert))
         .count();
-    drive_enum(ctx, &C16_SUBS[0], n as u64);
+    drive_enum(ctx, &C16_SUBS[0], n as u64 * 6);
 }
 
 #[allow(dead_code)]
